@@ -12,6 +12,8 @@ structure St where
   h : Option Handle := none
   /-- highest file id ever used in this case (files are a function; this bounds what `disk` prints) -/
   hi : Nat := 0
+  /-- capacity of the read-handle LRU (`open_files_limit`; 256 = the builder default) -/
+  cap : Nat := 256
 
 def hexDigit (n : Nat) : Char :=
   if n < 10 then Char.ofNat (48 + n) else Char.ofNat (87 + n)
@@ -53,33 +55,68 @@ def retLine : Ret → String
 
 def probe : Bytes := [0xEE, 0xDD, 0xCC]
 
+/-- `a:b,c:d` / `-` -/
+def parsePairs (s : String) : Option (List (Nat × Nat)) :=
+  if s = "-" then some [] else
+  (s.splitOn ",").mapM fun p =>
+    match p.splitOn ":" with
+    | [a, b] => do pure ((← parseNat? a), (← parseNat? b))
+    | _ => none
+
+/-- the byte pattern of the data files written by the harness's `raw` op -/
+def pattern (id len : Nat) : Bytes := (List.range len).map fun j => (id * 16 + j + 1) % 256
+
 def step (s : St) (ts : List String) : St × String :=
   match ts with
   | ["cfg", m] =>
     match parseNat? m with
     | some m => ({ max := m, disk := emptyDisk, h := none }, "ok")
     | none => (s, "bad-op")
+  | ["cfg", m, cap] =>
+    match parseNat? m, parseNat? cap with
+    | some m, some cap => ({ max := m, disk := emptyDisk, h := none, cap := cap }, "ok")
+    | _, _ => (s, "bad-op")
+  | ["cache"] =>
+    match s.h with
+    | some h => (s, s!"cache={if h.cache.isEmpty then "-" else ",".intercalate (h.cache.map toString)}")
+    | none => (s, "bad-op")
   | ["open"] =>
-    match «open» s.disk with
+    match openL s.cap s.disk with
     | some (h, d) => ({ s with disk := d, h := some h }, s!"ok {h.number}")
     | none => ({ s with h := none }, "err")
   | ["append", hx] =>
     match s.h, unhex hx with
     | some h, some data =>
-      let (h', d') := append s.max h s.disk data
+      let (h', d') := appendL s.cap s.max h s.disk data
       ({ s with disk := d', h := some h', hi := max s.hi h'.headId }, "ok")
     | _, _ => (s, "bad-op")
   | ["retrieve", i] =>
     match s.h, parseNat? i with
-    | some h, some i => (s, retLine (retrieve h s.disk i))
+    | some h, some i =>
+      ({ s with h := some { h with cache := retrieveCache s.cap h s.disk i } }, retLine (retrieve h s.disk i))
     | _, _ => (s, "bad-op")
   | ["truncate", i] =>
     match s.h, parseNat? i with
     | some h, some i =>
-      let (h', d') := truncate h s.disk i
+      let (h', d') := truncateL s.cap h s.disk i
       ({ s with disk := d', h := some h' }, "ok")
     | _, _ => (s, "bad-op")
   | ["disk"] => (s, diskLine s.disk s.hi)
+  | ["raw", ents, tail, files] =>
+    match parsePairs ents, parseNat? tail, parsePairs files with
+    | some ents, some tail, some files =>
+      let fs : Nat → Bytes := fun i =>
+        match files.find? (·.1 = i) with
+        | some (_, len) => pattern i len
+        | none => []
+      let hi := (ents.map (·.1) ++ files.map (·.1)).foldl max 0
+      ({ s with disk := { idx := ents.map fun e => ⟨e.1, e.2⟩, tail := tail, files := fs }, h := none,
+                hi := hi }, "ok")
+    | _, _, _ => (s, "bad-op")
+  | ["cutfile", fid, len] =>
+    match parseNat? fid, parseNat? len with
+    | some fid, some len => ({ s with disk := s.disk.cutFile fid len, h := none }, "ok")
+    | _, _ => (s, "bad-op")
   | [op, il, fid, fl] =>
     if op = "cut" ∨ op = "cutopen" then
       match parseNat? il, parseNat? fid, (if fl = "rm" then some none else (parseNat? fl).map some) with
